@@ -653,3 +653,59 @@ def alt_delimiter_rule(m, rid, module_filter=None):
                 r.fail("%s|alt-delimiters|%s" % (q, base), "%s accepts `%s` enclosed in any of %s and keeps only the inside: the printer cannot "
                        "reproduce the delimiters that were written" % (q, base, sorted(ps)), m.loc(f))
     return r
+
+
+# =================================================================================================
+# contradiction: a length test that an earlier length guard makes unsatisfiable (the guarded piece is never used)
+# =================================================================================================
+def length_contradiction_rule(m, rid):
+    from rules import delim_rules as D
+    r = RuleResult(rid, "no test of len(x) is made unsatisfiable by an earlier guard on the same length (the piece it guards -- an optional "
+                        "third expression, a stride -- would silently never be used)")
+    r.floor = 2
+    OPS = {ast.Gt: lambda a, b: a > b, ast.GtE: lambda a, b: a >= b, ast.Lt: lambda a, b: a < b, ast.LtE: lambda a, b: a <= b,
+           ast.Eq: lambda a, b: a == b, ast.NotEq: lambda a, b: a != b}
+    for (path, q), f in sorted(m.funcs.items()):
+        if "/tests/" in path or "/two/" not in path:
+            continue
+        tests = []
+        for n in A.body_nodes(f.node):
+            t = n.test if isinstance(n, (ast.If, ast.IfExp)) else None
+            if t is None:
+                continue
+            for x in ast.walk(t):
+                if isinstance(x, ast.Compare) and len(x.ops) == 1 and type(x.ops[0]) in OPS and isinstance(x.left, ast.Call) \
+                        and A.dotted(x.left.func) == "len" and isinstance(A.const(x.comparators[0], None), int):
+                    tests.append((n, x))
+        if not tests:
+            continue
+        P = A.parents(f.node)
+        for n, x in tests:
+            subject = A.text(x.left)
+            allowed = None
+            for t, pol in D.facts_at(f.node, n, P):
+                for lit, lp in D.expand(t, pol):
+                    if not (isinstance(lit, ast.Compare) and len(lit.ops) == 1 and A.text(lit.left) == subject):
+                        continue
+                    op, cmp_ = lit.ops[0], lit.comparators[0]
+                    vals = None
+                    if isinstance(cmp_, (ast.List, ast.Tuple, ast.Set)) and all(isinstance(A.const(e, None), int) for e in cmp_.elts):
+                        vals = {A.const(e) for e in cmp_.elts}
+                        if (isinstance(op, ast.In) and lp) or (isinstance(op, ast.NotIn) and not lp):
+                            allowed = vals if allowed is None else allowed & vals
+                    elif isinstance(A.const(cmp_, None), int):
+                        c = A.const(cmp_)
+                        if (isinstance(op, ast.Eq) and lp) or (isinstance(op, ast.NotEq) and not lp):
+                            allowed = {c} if allowed is None else allowed & {c}
+            if not allowed:
+                continue
+            r.instances += 1
+            c = A.const(x.comparators[0])
+            truth = {OPS[type(x.ops[0])](v, c) for v in allowed}
+            ok = truth != {False}
+            r.ob(ok, "%s: `%s` with %s in %s" % (q, A.text(x), subject, sorted(allowed)))
+            if not ok:
+                r.fail("%s|dead-length-test|%s" % (q, A.text(x)), "%s tests `%s`, but the guard before it only lets %s in %s through: the test can "
+                       "never hold, so what it guards (an optional trailing expression) is never taken from the text and is dropped from "
+                       "the tree" % (q, A.text(x), subject, sorted(allowed)), m.loc(f, n))
+    return r
